@@ -307,11 +307,27 @@ class C18(DiffProperty):
                "props/c18.py check_parts is the executable reading of the specification on the implementation's part list "
                "(the Coq counterpart is parts_ok/draw_count in coq/C18/LinepartSpec.v)",
                "IEEE-754 binary64 division of the host is correctly rounded (hypothesis of C18_code_agrees_small_dyadic)"]
-    level_text = ("proof: Coq theorems over exact rationals, for every value sequence and every range (no length bound; induction over "
-                  "the driver loop with fuel whose sufficiency is proved): C18_progress, C18_consumes_each_point_once, "
-                  "C18_in_range_drawn_once, C18_out_of_range_interior_not_drawn, C18_cut_trim_precision, C18_join_preserves_totals, "
-                  "C18_code_agrees_small_dyadic; the model is tied to the code on every run by differential execution under ASan/UBSan")
-    level_note = ("see docs/notes_C18.md")
+    level_text = ("proof: Coq theorems over exact rationals, for EVERY value sequence (any length, induction over the driver loop "
+                  "with fuel |data| whose sufficiency is proved) and every range (also min=max, min>max, none): C18_progress (a call "
+                  "on >= 1 values consumes between 1 and min(len,65535) values and never reads outside), "
+                  "C18_consumes_each_point_once (the loop 'pos += raw' ends and the raw counts sum to n), C18_in_range_drawn_once, "
+                  "C18_out_of_range_interior_not_drawn, C18_parts_as_specified (every drawn out-of-range point is the clipped first or "
+                  "last point of its part next to an in-range point), C18_cut_trim_precision (code = floor(65536 x) clipped to 65535 "
+                  "for the exact crossing fraction x with o + x(v-o) = bound, |decode - x| <= 2^-16, else 0), "
+                  "C18_code_is_clipped_floor, C18_join_preserves_totals, C18_join_draws_union, C18_set_apply_covers_all and "
+                  "C18_set_apply_points (the same per-point statements for linepart::array::set+apply, the path polyline::set takes, "
+                  "joins included), C18_code_agrees_small_dyadic (binary64 vs exact codes, rounding properties as hypotheses); the "
+                  "model is tied to the code on every run by differential execution under ASan/UBSan (exhaustive over the 5-class "
+                  "alphabet to length 8, random dyadic sequences, runs around 65535 points)")
+    level_note = ("trusted: Coq kernel; hand transcription of linepart_linear/code/join.c and linepart::array::set/apply (validated by "
+                  "the correspondence run, not verified); extraction and OCaml driver; harness; python reading of the part lists. "
+                  "The theorems are about exact rational arithmetic; the C computes the two fractions in binary64 - the link is the "
+                  "stated comparison rule (codes equal for small dyadic inputs, |delta| <= 1 otherwise) and "
+                  "C18_code_agrees_small_dyadic, whose two rounding facts (relative error <= 2^-53, representable quotients exact) "
+                  "are explicit hypotheses, not proved from an IEEE model.  NaN and infinities are outside the model (observed, "
+                  "not in the check: {0, NaN, 2} against [1,3] returns raw = 0, see docs/notes_C18.md).  apply() with a second "
+                  "dimension (intersection of two part lists) is not modelled.  The theorems hold for the tree with the fix: commit "
+                  "'mpt_linepart_join keeps the trim of the appended part'.  All 12 theorems are closed under the global context.")
     technique = "Coq proof (per-part invariant, induction over the driver loop) + differential correspondence check with a stated rounding rule"
     assumptions = ["binary64 division/subtraction are correctly rounded (IEEE-754), no excess precision",
                    "inputs are finite doubles (no NaN/infinity)"]
@@ -478,6 +494,8 @@ class C18(DiffProperty):
         vs = vs[:n]
         srt = sorted(set(vs), key=lambda x: val_of(x)[0])
         a, b = rng.choice(srt), rng.choice(srt)
+        if a == b and len(srt) > 1 and rng.random() < 0.8:
+            b = rng.choice([x for x in srt if x != a])
         r = rng.random()
         if r < 0.6:
             a, b = sorted([a, b], key=lambda x: val_of(x)[0])
@@ -561,6 +579,9 @@ class C18(DiffProperty):
             mode = ("grid", "small", "full")[i % 3]
             n = rng.choice([1, 2, 3, 5, 8, 12, 20, 40]) if i % 50 else rng.choice([100, 300])
             cases.append(self.rand_seq(rng, mode, n))
+        if not hasattr(self, "_rule0"):
+            self._rule0 = self.rule
+        self.rule = self._rule0 + " [this run: %d value sequences in %d generated cases]" % (self.sequences(cases), len(cases))
         return cases
 
     def run(self, tier, seed, replay=None):
